@@ -1565,7 +1565,7 @@ def run(ck):
     translator_ok = rc == 0
     if translator_ok:
         proof_ok, failing = ck.proof_stage('MpVerif.C09.Props', 'MpVerif/C09/Props.lean', 'C09_',
-                                            ['MpVerif/C09/*.lean', 'MpVerif/Gen/C09Driver.lean'], expect_min=60)
+                                            ['MpVerif/C09/*.lean', 'MpVerif/Gen/C09Driver.lean'], expect_min=63)
     else:
         proof_ok, failing = False, ['translator gen_c09.py: ' + (out + err).strip()[-400:]]
         ck.cov.update({'obligations': 51, 'discharged': 0, 'checker_cmd': 'translators/gen_c09.py failed'})
